@@ -168,7 +168,11 @@ impl Worker {
             Err(RecvTimeoutError::Disconnected) => {
                 let st = self.child.wait().ok();
                 let tail = self.stderr_tail();
-                let phase = self.last_phase.clone();
+                let mut phase = self.last_phase.clone();
+                if st.and_then(|s| s.code()) == Some(78) {
+                    // the interposer stopped a placement search that made a million probes
+                    phase = format!("{phase}-placement-search-does-not-terminate");
+                }
                 self.respawn();
                 Exec::Died { signal: st.and_then(|s| s.signal()), code: st.and_then(|s| s.code()), phase, stderr_tail: tail }
             }
